@@ -1,4 +1,5 @@
 import MithrilModel.Registration
+import MithrilModel.RegLeader
 /-!
 # C07 — Signer registration requires a genuine, pool-bound, stake-bound key
 
@@ -64,5 +65,48 @@ example :
     register P (fun q => if q = 9 then some 42 else none) []
       { partyId := none, opcert := some 0, vk := 1, kesSig := some 0, kesEvolutions := some 4, claimedStake := 0 }
       = .ok (9, 42) := by rfl
+
+/-! ### at the aggregator (`SignerRegistrationVerifier::verify`, `MithrilSignerRegistrationLeader::register_signer`)
+
+Model: `RegLeader.run` (production configuration `RegLeader.prod`: built without
+`allow_skip_signer_certification`, both `fix:` commits in). The store is keyed by (round epoch, party). -/
+
+open RegLeader in
+/-- **for every history** of rounds opened and closed, chain KES periods and registration attempts, every
+registration the aggregator's store holds meets every clause of the property — op-cert signed by the cold
+key, party = pool id derived from it, stake = the round's distribution value for that pool, valid proof of
+possession, KES signature valid at an evolution within one period of the evolutions RECORDED for it (the
+value every node rebuilds the key registration with) — each (round, party) holds one registration, and no
+key is held for two parties of a round. -/
+theorem C07_aggregator_store (ops : List Op) :
+    let s := (run prod {} ops).1
+    (∀ r ∈ s.rows, Justified r) ∧
+    (∀ r1 ∈ s.rows, ∀ r2 ∈ s.rows, r1.epoch = r2.epoch → r1.pid = r2.pid → r1 = r2) ∧
+    (∀ r1 ∈ s.rows, ∀ r2 ∈ s.rows, r1.epoch = r2.epoch → r1.vk = r2.vk → r1.pid = r2.pid) := by
+  have h := run_inv ops {} inv_init
+  exact ⟨h.just, h.slot, h.key⟩
+
+/-- FIXED FINDING (verifier): the announced evolutions were recorded although the check ran with the chain's -/
+theorem C07_announced_evolutions_counterexample_before_repair :
+    let c : RegLeader.Cfg := { skip := false, storeVerifiedEvolutions := false, rejectForeignDuplicate := true }
+    let s := (RegLeader.run c {} [.openRound 5 RegLeader.sd0, .reg RegLeader.aLiar]).1
+    ∃ r ∈ s.rows, ¬ RegLeader.Justified r := RegLeader.announced_stored_counterexample
+
+/-- FIXED FINDING (leader): another pool registering a pool's public key was stored as well -/
+theorem C07_foreign_duplicate_counterexample_before_repair :
+    let c : RegLeader.Cfg := { skip := false, storeVerifiedEvolutions := true, rejectForeignDuplicate := false }
+    let s := (RegLeader.run c {} [.openRound 5 RegLeader.sd0, .reg RegLeader.aGood, .reg RegLeader.aCopy]).1
+    ∃ r1 ∈ s.rows, ∃ r2 ∈ s.rows, r1.epoch = r2.epoch ∧ r1.vk = r2.vk ∧ r1.pid ≠ r2.pid :=
+  RegLeader.foreign_duplicate_counterexample
+
+theorem C07_aggregator_repaired :
+    (RegLeader.run RegLeader.prod {} [.openRound 5 RegLeader.sd0, .reg RegLeader.aGood, .reg RegLeader.aCopy]).2
+      = [.ok 7 10, .duplicateKey] ∧
+    ((RegLeader.run RegLeader.prod {} [.openRound 5 RegLeader.sd0, .reg RegLeader.aLiar]).1.rows.map (·.evol)) = [some 0] :=
+  RegLeader.repaired_examples
+
+/-- non-vacuity: a valid registration is stored -/
+example : ((RegLeader.run RegLeader.prod {} [.openRound 5 RegLeader.sd0, .reg RegLeader.aGood]).1.rows.map (·.pid)) = [7] := by
+  decide +kernel
 
 end C07
